@@ -139,12 +139,29 @@ func (fr *Frame) callAlt(alt FuncAlt, args []Val, st *State, pos token.Pos, inst
 	return fr.callFunction(alt.fn, args, alt.bindings, st, pos, instr)
 }
 
+// panicPoint is a place where code outside the contracts runs and may panic.
+// If the function under verification recovers (a `recovers` clause), its
+// named results as they are right now are what the caller will see.
+func (fr *Frame) panicPoint(st *State, pos token.Pos, what string) {
+	fx := fr.fx
+	root := fx.rootSpec
+	if root == nil || len(root.Recovers) == 0 || fx.rootFrame == nil {
+		return
+	}
+	fx.noteAssumption("a panic raised by " + what + " is recovered by the deferred handler and the named results are returned as they are at that moment")
+	for i, c := range root.Recovers {
+		t := fx.rootFrame.evalClause(c, st, nil, nil)
+		fx.oblige("recovers", fmt.Sprintf("%s/on_panic/%s#", fx.rootFrame.path, clauseName(c, i)), st, t, pos, c.Src)
+	}
+}
+
 // callUnknownFunc models a call through a function value of unknown origin
 // (a callback parameter): according to the enclosing contract's callback
 // declaration, or as a pure deterministic function of its arguments.
 func (fr *Frame) callUnknownFunc(fv Val, args []Val, st *State, pos token.Pos, sig *types.Signature) *Val {
 	fx := fr.fx
 	fx.oblige("nil", fr.path+"/nil/funcvalue#", st, not(eq(fv.ts[0], "0")), pos, "")
+	fr.panicPoint(st, pos, "a callback")
 	fx.noteAssumption("callbacks invoked through function values are pure, deterministic and return normally")
 	if sp := fr.spec; sp != nil && (len(sp.CbRequires) > 0 || len(sp.CbModifies) > 0 || len(sp.CbEnsures) > 0) {
 		defer fr.callbackEffects(sp, st, pos, args)()
@@ -348,6 +365,9 @@ func (fr *Frame) callWithSpec(callee *ssa.Function, spec *FuncSpec, args []Val, 
 		fx.assume(st.guard, le(st.alloc, na))
 		st.alloc = na
 	}
+	if !spec.Extern && !spec.Pure {
+		fr.havocGhostsForCall(callee, st)
+	}
 	// results
 	var resVals []Val
 	var resShapes []*Shape
@@ -410,6 +430,9 @@ func (fr *Frame) callWithSpec(callee *ssa.Function, spec *FuncSpec, args []Val, 
 		if ok {
 			fx.assume(st.guard, t)
 		}
+	}
+	if spec.MayPanic {
+		fr.panicPoint(pre, pos, key)
 	}
 	if spec.Logged {
 		fx.logCall(st, short, args, resVals)
@@ -731,6 +754,9 @@ func (fr *Frame) invoke(recv Val, m *types.Func, args []Val, st *State, pos toke
 	}
 	key := "iface:" + iname + "." + m.Name()
 	spec := fx.eng.contracts.Funcs[key]
+	if spec == nil || !spec.Residual {
+		fr.panicPoint(st, pos, "a call of "+iname+"."+m.Name())
+	}
 	// closed-world dispatch over the in-module dynamic types known so far;
 	// every other dynamic type is covered by the interface-method contract
 	type cand struct {
@@ -983,6 +1009,9 @@ func (fr *Frame) builtin(name string, args []Val, st *State, pos token.Pos, inst
 		return nil
 	case "recover":
 		return fr.doRecover(st, instr)
+	case "close":
+		fx.noteAssumption("close of a channel is not modelled (closing a closed or nil channel panics)")
+		return nil
 	}
 	unsupp("builtin %s on %s", name, args[0].sh.key)
 	return nil
